@@ -465,3 +465,35 @@ for _helper in ("resolve_message_context", "resolve_count"):
             c.raises("LiquidError")
             c.replay("code", code=REPLAY_TRANSLATE_ARGS)
     _mkhelper(_helper)
+
+
+# ---- a range of the render data as the iterable of a loop: len() of a range with more than
+# ---- sys.maxsize items raises OverflowError (machine limits modelled for C02)
+
+REPLAY_HUGE_RANGE = r'''
+def run(m):
+    import asyncio
+    from liquid import Environment
+    from liquid.exceptions import LiquidError
+    bad = []
+    for src in ("{% for i in r %}{{ i }}{% break %}{% endfor %}", "{% tablerow i in r limit: 1 %}{{ i }}{% endtablerow %}"):
+        for r in (range(0, 10**30), range(-10**30, 10**30), range(0, 3)):
+            t = Environment().from_string(src)
+            for f in (lambda: t.render(r=r), lambda: asyncio.run(t.render_async(r=r))):
+                try:
+                    f()
+                except LiquidError:
+                    pass
+                except BaseException as ex:
+                    bad.append((src, r.stop > 10, type(ex).__name__))
+    return {"violated": bool(bad), "observed": bad[:4], "witness": "loop-over-a-huge-range"}
+'''
+
+
+@contract("liquid.builtin.expressions.loop:LoopExpression._to_iter", prop="C02", name="_to_iter[a range of the render data, any bounds]")
+def to_iter_range(c):
+    ctx = c.obj(_CTX, "context", env=c.obj("liquid.environment:Environment", "env", string_sequences=c.bool("string_sequences")))
+    self = c.obj("liquid.builtin.expressions.loop:LoopExpression", "loop", token=NONE, iterable=c.obj("liquid.expression:Expression", "iterable", token=NONE))
+    c.call(VRange(c.int("start").t, c.int("stop").t), ctx, self_val=self)
+    c.raises("LiquidError")
+    c.replay("code", code=REPLAY_HUGE_RANGE)
